@@ -37,6 +37,12 @@ MUT={
             ret += base.mix_len(self)  # type: ignore
         return ret'''),
  "c01-6-image-version-mask": ("C01","spsdk/image/mbi/mbi_mixin.py","    IVT_IMAGE_FLAGS_IMG_VER_MASK = 0xFFFF","    IVT_IMAGE_FLAGS_IMG_VER_MASK = 0x7FFF"),
+ "c01-7-digest-revert-strips-too-little": ("C01","spsdk/image/mbi/mbi_mixin.py",
+   '''                image.binary = image.binary[
+                    : -self.manifest.get_hash_size(self.manifest.digest_hash_algo)
+                ]''','''                image.binary = image.binary[
+                    : -(self.manifest.get_hash_size(self.manifest.digest_hash_algo) - 4)
+                ]'''),
  # C02
  "c02-1-sign-truncated": ("C02","spsdk/image/mbi/mbi_mixin.py",
    '''        signature = self.signature_provider.get_signature(image.export())
